@@ -243,11 +243,15 @@ inductive StrM
   | regex (r : Rx)
 deriving Repr, DecidableEq, Inhabited
 
-/-- `core.v3.CidrRange` (IPv4 only in this model): address as a number, prefix length. -/
+/-- `core.v3.CidrRange`: address as a number (32 bits, or 128 bits when `v6`), prefix length. -/
 structure Cidr where
   addr : Nat
   len : Nat
+  v6 : Bool := false
 deriving Repr, DecidableEq, Inhabited
+
+/-- Width of the address family in bits. -/
+def Cidr.width (c : Cidr) : Nat := if c.v6 then 128 else 32
 
 /-- `envoy.type.matcher.v3.ValueMatcher` subset: string_match, or_match, list_match{one_of}. -/
 inductive ValM
@@ -353,7 +357,7 @@ def jwtClaimStr (claim : Str) (m : StrM) : MetaM :=
 def jwtClaimsList (claims : List Str) (v : ValM) : MetaM :=
   { filter := jwtFilterName, path := jwtPayload :: claims, value := .orM [.listM v, v] }
 
-/-! ## IP / port parsing (`netip.ParseAddr` / `ParsePrefix`, IPv4 only; `convertToPort`) -/
+/-! ## IP / port parsing (`netip.ParseAddr` / `ParsePrefix`; `convertToPort`) -/
 
 def parseOctet (s : Str) : Option Nat :=
   if s.isEmpty || s.length > 3 || !s.all isDigit then none
@@ -368,25 +372,128 @@ def parseIPv4 (s : Str) : Option Nat :=
     | _, _, _, _ => none
   | _ => none
 
-def parseBits (s : Str) : Option Nat :=
+def isHex (c : Char) : Bool := isDigit c || ('a' ≤ c && c ≤ 'f') || ('A' ≤ c && c ≤ 'F')
+
+def hexVal (c : Char) : Nat :=
+  if isDigit c then c.toNat - 48 else if 'a' ≤ c && c ≤ 'f' then c.toNat - 87 else c.toNat - 55
+
+def hexNum (s : Str) : Nat := s.foldl (fun acc c => acc * 16 + hexVal c) 0
+
+/-- The group loop of `netip.parseIPv6`: 16-bit groups read so far, position of `::` (in groups). -/
+def parseV6Loop : Nat → Str → List Nat → Option Nat → Option (List Nat × Option Nat)
+  | 0, _, _, _ => none
+  | fuel + 1, s, gs, ell =>
+    if gs.length ≥ 8 then (if s.isEmpty then some (gs, ell) else none)
+    else
+      let digs := s.takeWhile isHex
+      let rest := s.drop digs.length
+      if digs.isEmpty || digs.length > 4 then none
+      else if rest.head? == some '.' then
+        -- embedded IPv4: must replace the final two groups
+        if (ell.isNone && gs.length != 6) || gs.length > 6 then none
+        else match parseIPv4 s with
+          | some a => some (gs ++ [a / 65536, a % 65536], ell)
+          | none => none
+      else
+        let gs := gs ++ [hexNum digs]
+        match rest with
+        | [] => some (gs, ell)
+        | c :: rest1 =>
+          if c != ':' then none
+          else match rest1 with
+            | [] => none
+            | ':' :: rest2 =>
+              if ell.isSome then none
+              else if rest2.isEmpty then some (gs, some gs.length)
+              else parseV6Loop fuel rest2 gs (some gs.length)
+            | _ => parseV6Loop fuel rest1 gs ell
+
+def groupsVal (gs : List Nat) : Nat := gs.foldl (fun acc g => acc * 65536 + g) 0
+
+/-- `netip.parseIPv6`: (address, has a zone). -/
+def parseIPv6 (s0 : Str) : Option (Nat × Bool) :=
+  let (s, zone) : Str × Option Str := match cut '%' s0 with
+    | some (a, z) => (a, some z)
+    | none => (s0, none)
+  if zone == some [] then none
+  else
+    let r : Option (List Nat × Option Nat) :=
+      if hasPrefix "::".toList s then
+        if (s.drop 2).isEmpty then some ([], some 0) else parseV6Loop 10 (s.drop 2) [] (some 0)
+      else parseV6Loop 10 s [] none
+    match r with
+    | none => none
+    | some (gs, ell) =>
+      if gs.length < 8 then
+        match ell with
+        | none => none
+        | some e => some (groupsVal (gs.take e ++ List.replicate (8 - gs.length) 0 ++ gs.drop e), zone.isSome)
+      else if ell.isSome then none
+      else some (groupsVal gs, zone.isSome)
+
+/-- `netip.ParseAddr`: the first of '.', ':', '%' selects the family.  (v6, address, has a zone) -/
+def parseAddr (s : Str) : Option (Bool × Nat × Bool) :=
+  match s.find? (fun c => c == '.' || c == ':' || c == '%') with
+  | some '.' => (parseIPv4 s).map fun a => (false, a, false)
+  | some ':' => (parseIPv6 s).map fun (a, z) => (true, a, z)
+  | _ => none
+
+/-- Prefix length text of `netip.ParsePrefix`: decimal, no sign, no leading zero, at most `max`. -/
+def parseBits (max : Nat) (s : Str) : Option Nat :=
   if s.isEmpty || !s.all isDigit then none
   else if s.length > 1 && s.head? == some '0' then none
   else if s.length > 3 then none
-  else if digitsVal s 0 > 32 then none else some (digitsVal s 0)
+  else if digitsVal s 0 > max then none else some (digitsVal s 0)
 
-/-- `util.AddrStrToCidrRange`. -/
+/-- `util.AddrStrToCidrRange` = `AddrStrToPrefix` (ParsePrefix, or ParseAddr with the full length; a
+    zone is dropped by `PrefixFrom` and refused by `ParsePrefix`) + `PrefixToCidrRange`. -/
 def parseCidr (s : Str) : Option Cidr :=
   if s.isEmpty then none
   else if s.contains '/' then
     match cutLast '/' s with
     | some (ip, bits) =>
-      match parseIPv4 ip, parseBits bits with
-      | some a, some b => some ⟨a, b⟩
-      | _, _ => none
+      match parseAddr ip with
+      | some (v6, a, zone) =>
+        if zone then none
+        else match parseBits (if v6 then 128 else 32) bits with
+          | some b => some ⟨a, b, v6⟩
+          | none => none
+      | none => none
     | none => none
-  else match parseIPv4 s with
-    | some a => some ⟨a, 32⟩
+  else match parseAddr s with
+    | some (v6, a, _) => some ⟨a, if v6 then 128 else 32, v6⟩
     | none => none
+
+/-! `netip.Addr.String()` (the `address_prefix` text of the generated CidrRange) -/
+
+def hexDigitChar (n : Nat) : Char := if n < 10 then Char.ofNat (48 + n) else Char.ofNat (87 + n)
+
+def hexStr (n : Nat) : Str :=
+  if n < 16 then [hexDigitChar n]
+  else if n < 256 then [hexDigitChar (n / 16), hexDigitChar (n % 16)]
+  else if n < 4096 then [hexDigitChar (n / 256), hexDigitChar (n / 16 % 16), hexDigitChar (n % 16)]
+  else [hexDigitChar (n / 4096 % 16), hexDigitChar (n / 256 % 16), hexDigitChar (n / 16 % 16), hexDigitChar (n % 16)]
+
+def v6Groups (a : Nat) : List Nat := (List.range 8).map fun i => a / 65536 ^ (7 - i) % 65536
+
+def dottedStr (a : Nat) : Str :=
+  join ['.'] [natToStr (a / 16777216 % 256), natToStr (a / 65536 % 256), natToStr (a / 256 % 256), natToStr (a % 256)]
+
+/-- First longest run (length >= 2) of zero groups: (start, end). -/
+def zeroRun (gs : List Nat) : Option (Nat × Nat) :=
+  (List.range 8).foldl (fun best i =>
+    let l := ((gs.drop i).takeWhile (· == 0)).length
+    let bl := match best with | some (s, e) => e - s | none => 0
+    if l ≥ 2 && l > bl then some (i, i + l) else best) none
+
+def addrString (v6 : Bool) (a : Nat) : Str :=
+  if !v6 then dottedStr a
+  else if a / 4294967296 == 65535 then "::ffff:".toList ++ dottedStr (a % 4294967296)
+  else
+    let gs := v6Groups a
+    match zeroRun gs with
+    | none => join [':'] (gs.map hexStr)
+    | some (s, e) => join [':'] ((gs.take s).map hexStr) ++ "::".toList ++ join [':'] ((gs.drop e).map hexStr)
 
 /-- `convertToPort`. -/
 def parsePort (s : Str) : Option Nat :=
